@@ -245,15 +245,15 @@ def rpc_pairing(env):
 
 
 def end_to_end_fidelity(env):
-    """C02 / C07 end to end on real networks with both default timeouts configured: 62 calls with header maps of 0..300 entries (incl. a `timeout`
-    header longer / shorter than the defaults), bodies of 0..300000 bytes, every error status, response header maps of 0..300 entries, both directions"""
+    """C02 / C07 end to end on real networks with both default timeouts configured: 68 calls with header maps of 0..300 entries (incl. a `timeout`
+    header longer / shorter than the defaults), request bodies of 0..2 000 000 bytes and response bodies up to 3 MB, every error status, response header maps of 0..300 entries, both directions"""
     got = _run('end_to_end_fidelity', {}, env, timeout=240)
     fails = []
     if got.get('panicked'):
         fails.append(dict(scenario='end_to_end_fidelity', args={}, expected=dict(note='no panic'), observed=got))
     for b in got.get('bad') or []:
         fails.append(dict(scenario='end_to_end_fidelity', args=b['case'], expected=dict(note='the handler receives exactly (route, headers, body) as sent; the caller receives exactly (status, headers, body) as produced'), observed=b))
-    if not fails and got.get('calls') != 62:
+    if not fails and got.get('calls') != 68:
         raise Undecided('end_to_end_fidelity scenario made %s calls' % got.get('calls'))
     return dict(name='end_to_end_fidelity', validates='the whole path between Network::rpc and the handler on real networks with every built-in middleware active (the contracts cover do_rpc / do_handle and each middleware separately)',
                 cases=int(got.get('calls') or 0), failed=fails, ok=not fails, props=['C02', 'C07'],
@@ -483,6 +483,38 @@ def shutdown_scenarios(env):
     return dict(name='shutdown_scenarios', validates='shutdown as a whole (task joins, channel closure, socket release, Drop order, runtime teardown), which no contract expresses: explicit and by dropping the last handle, with work of every kind in flight; the runtime torn down at 4 moments with handles alive',
                 cases=cases, failed=fails, ok=not fails, props=['C08'],
                 clause='shutting a network down completes within the idle-wait bound whatever is in flight; afterwards it reports closed with no peers, its address can be re-bound at once, every clone of the user\'s service has been dropped, subscribers receive their pending LostPeer events and then end-of-stream, weak references no longer upgrade, remote peers observe the disconnect; every call pending at or issued after shutdown returns an error; tearing down the runtime at any moment neither panics nor hangs')
+
+
+def backpressure_service(env):
+    """C04 / C06 on real networks: the user's service has capacity 1 (tower ConcurrencyLimit) and is held by one peer's 4 s request; another peer sends a
+    request and disconnects"""
+    got = _run('backpressure_service', {}, env, timeout=120)
+    fails = []
+    ok = (not got.get('panicked') and (got.get('disconnected_peer_delisted_after_ms') or 10**9) <= 2000 and (got.get('lost_peer_event_after_ms') or 10**9) <= 2000
+          and got.get('newcomer_connected') and got.get('slow_request_answered'))
+    if not ok:
+        fails.append(dict(scenario='backpressure_service', args={}, expected=dict(disconnected_peer_delisted_within_ms=2000, lost_peer_event_within_ms=2000, newcomer_connected=True, slow_request_answered=True,
+                          note='a service that is not ready delays requests, never the bookkeeping of connections'), observed=got))
+    return dict(name='backpressure_service', validates='the per-connection accept loop against a service whose poll_ready is pending (every other check uses services that are always ready)', cases=1, failed=fails, ok=not fails,
+                props=['C04', 'C06'], clause='the listing contains no peer whose connection has been seen closed, and the event stream says so; a slow or saturated service affects requests, not the handling of other streams and of the connection')
+
+
+def silent_peer_loss(env):
+    """C09 on real networks: a connected peer goes silent (its runtime stops being polled); idle timeout 1.5 s; four ways the connection was made"""
+    got = _run('silent_peer_loss', {}, env, timeout=180)
+    fails = []
+    if got.get('panicked'):
+        fails.append(dict(scenario='silent_peer_loss', args={}, expected=dict(note='the scenario finishes'), observed=got))
+    cases = got.get('cases') or []
+    for c in cases:
+        if c.get('setup_failed') or not c.get('connected_first'):
+            raise Undecided('silent_peer_loss: the connection of case %s was never established' % c.get('how'))
+        if (c.get('lost_peer_event_after_ms') or 10**9) > 4000 or (c.get('delisted_after_ms') or 10**9) > 4000:
+            fails.append(dict(scenario='silent_peer_loss', args=dict(how=c['how'], idle_timeout_ms=1500), expected=dict(lost_peer_event_within_ms=4000, delisted_within_ms=4000), observed=c))
+    if not fails and len(cases) != 4:
+        raise Undecided('silent_peer_loss scenario reported %d cases' % len(cases))
+    return dict(name='silent_peer_loss', validates='that the configured idle timeout is in force on connections made in each of four ways (quinn transport configuration reaching every client / server configuration the node builds)', cases=len(cases), failed=fails, ok=not fails,
+                props=['C09'], clause='any connection that one side closes, rejects or loses is reported lost by the other side no later than the idle timeout')
 
 
 def decode_sweep(env):
